@@ -5,17 +5,18 @@ import Driver.Util
 * `oom run <overcommit> <safepoint> <oomcall> <obvious> <fuel> <rec>…` — run `slowPath` on the
   environment given by the records (each six bits `localHit pollGc pagesOk emergCheck succSeen
   emergRecord`, e.g. `010100`; the last record repeats forever; none = all-zero record) and print
-  `addr|null|outOfFuel trace=<ev,ev,…>`. `oom runfixed …` = the repaired loop.
+  `addr|null|outOfFuel trace=<ev,ev,…>`. `oom runold …` = the loop of the pinned tree (before the
+  two `fix:` commits, `slowPathOld`).
 * `oom accept <overcommit> <safepoint> <oomcall> <obvious> <null|addr|timeout> <oomcalls> <blocked>
   <gcs>` → `ok` iff SOME environment makes `slowPath` produce exactly that observation
   (result kind, number of `out_of_memory` calls, number of `block_for_gc` calls; `gcs` = completed
   pauses during the call, each `block_for_gc` waits for at least one), else `reject`.
   A `timeout` observation is accepted iff the model can stay in the loop forever without ever
   calling `block_for_gc` again (a spin: no GC progress assumption can rescue it).
-  `oom acceptfixed …` = the same for the repaired loop.
+  `oom acceptold …` = the same for the loop of the pinned tree.
 The search is over the finitely many abstract loop states (local `emergency_collection`, counters
 bounded by the observation) and all 64 environment records per iteration, using the model's own
-`iter` / `iterFixed`. -/
+`iter` / `iterOld`. -/
 namespace Driver.Conc.OOM
 open Mmtk.OOM Driver
 
@@ -128,9 +129,9 @@ def accept (it : IterFn) (r : Req) (o : Obs) : Bool :=
   | none => (reachEmerg it r).any fun x => spin it r 3 x
   | some _ => search it r o (2 * (o.blocked + 2) + 2) [{ emerg := false, blocked := 0, ooms := 0 }]
 
-def runModel (fixed : Bool) (r : Req) (fuel : Nat) (recs : List EnvRec) : Outcome :=
+def runModel (old : Bool) (r : Req) (fuel : Nat) (recs : List EnvRec) : Outcome :=
   let env := Env.ofList recs (recs.getLastD zeroRec)
-  if fixed then slowPathFixed r fuel env else slowPath r fuel env
+  if old then slowPathOld r fuel env else slowPath r fuel env
 
 def step (args : List String) : String :=
   match args with
@@ -138,15 +139,15 @@ def step (args : List String) : String :=
     match parseReq ov sp oc obv with
     | none => "bad-op bad-options"
     | some r =>
-      if op == "run" || op == "runfixed" then
+      if op == "run" || op == "runold" then
         match rest with
         | fuel :: recs =>
           match fuel.toNat?, recs.mapM parseRec with
-          | some f, some l => showOutcome (runModel (op == "runfixed") r f l)
+          | some f, some l => showOutcome (runModel (op == "runold") r f l)
           | _, _ => "bad-op bad-args"
         | [] => "bad-op bad-args"
-      else if op == "accept" || op == "acceptfixed" then
-        let it : IterFn := if op == "accept" then iter else iterFixed
+      else if op == "accept" || op == "acceptold" then
+        let it : IterFn := if op == "accept" then iter else iterOld
         match rest with
         | [res, ooms, blocked, gcs] =>
           let res? : Option (Option Res) :=
